@@ -266,6 +266,22 @@ def judge_snapshot(ctx, snap, pre, post, pre_closure, case, check="crash"):
                     p.check()
             except Exception as e:
                 ok = fail("visible-pack-invalid", f"a pack visible to the store fails check(): {type(e).__name__}: {e}")
+            # whatever the store lists after the crash is an object: a valid name that can be read (leftover lock and
+            # temporary files are not objects), and the maintenance that walks the listing still works
+            try:
+                listed = list(r.object_store)
+            except Exception as e:
+                listed = []
+                ok = fail("store-listing-raises", f"iter(object_store) raises {type(e).__name__}: {e}")
+            for i in listed:
+                if len(i) != 40 or any(c not in b"0123456789abcdef" for c in i):
+                    ok = fail("store-lists-non-object", f"the store lists {i!r}, which is not an object name")
+                    break
+                try:
+                    r.object_store[i]
+                except Exception as e:
+                    ok = fail("store-lists-unreadable-object", f"the store lists {i!r} but reading it raises {type(e).__name__}: {e}")
+                    break
         finally:
             r.close()
     # loose object files under a valid name must inflate and hash to that name
